@@ -9,6 +9,7 @@ type Identifier struct {
 	Callee         *Identifier
 	Value          string
 	OriginalCallee *Identifier // So robot.Avatar.Name the OriginalCallee will be robot
+	Synthetic      bool        // a name the parser made up for the value a path continues from (x[0].y, f().y)
 }
 
 var _ Comparable = &Identifier{}
